@@ -19,8 +19,15 @@ def sh(cmd, **kw):
     return subprocess.run(cmd, stdout=subprocess.PIPE, stderr=subprocess.STDOUT, **kw)
 
 
+RUN = os.getpid()   # slots are private to one invocation, so that several matrices can run side by side
+
+
+def slot_root(i):
+    return "/tmp/pqslot_%d_%d" % (RUN, i)
+
+
 def make_slot(i):
-    root = "/tmp/pqslot%d" % i
+    root = slot_root(i)
     if os.path.exists(root):
         sh(["git", "-C", "/repo", "worktree", "remove", "--force", root + "/repo"])
         shutil.rmtree(root, ignore_errors=True)
@@ -35,7 +42,7 @@ def make_slot(i):
 
 
 def drop_slot(i):
-    root = "/tmp/pqslot%d" % i
+    root = slot_root(i)
     sh(["git", "-C", "/repo", "worktree", "remove", "--force", root + "/repo"])
     shutil.rmtree(root, ignore_errors=True)
 
